@@ -297,8 +297,17 @@ def shard(ctx):
         if i < 3:
             ctx.sample({'trans': trans, 'params': params,
                         'tree': model.show(model.from_spec(spec['root']), 'w')})
+    # ---- inside sequences of other transformations (vt/pipeline.py) ----
+    from . import pipeline
+    pipeline.run(ctx, Cur, ('punctuation_verylow', 'punctuation_root', 'punctuation_symetrify'), 2000, 80000)
+
 
 
 def replay(ctx, case):
+    if case.get('kind') == 'pipeline':
+        install(ctx.R)
+        from . import pipeline
+        pipeline.run_case(ctx, Cur, case, ctx.rng('replay'))
+        return
     install(ctx.R)
     run_case(ctx, case, ctx.rng('replay'))
